@@ -22,7 +22,7 @@ EXHAUSTIVE = {"quick": ["levenshtein_neighbors: all x len<=5 over alphabets A, A
               "thorough": ["levenshtein_neighbors: all x len<=6 over A, AC, ACD, ACDW", "hamming_neighbors: all x len<=5 over A..ACDW",
                            "next_nearest_neighbors: all x len<=3 over AC for maxdistance 1..3"]}
 REQUIRE = {"variable_positions_one_shot_iterables": 15, "lev1_strings": 400, "ham1_strings": 100, "strings_with_repeated_letters": 100, "empty_string_cases": 1, "brute_force_crosschecks": 50,
-           "variable_positions_cases": 20, "nnn_cases": 20, "pairs_cases": 16, "pairs_index_cases": 16, "neighbor_numbers_cases": 16,
+           "variable_positions_cases": 20, "nnn_cases": 20, "pairs_cases": 16, "pairs_container_steps": 64, "pairs_index_cases": 16, "neighbor_numbers_cases": 16,
            "isdist1_cases": 40, "nndist_cases": 30, "nndist_value_0": 2, "nndist_value_1": 5, "nndist_value_2": 5, "nndist_value_3": 3, "nndist_value_4": 2,
            "default_alphabet_cases": 10, "empty_reference_cases": 2}
 SHARDS = {"quick": 4, "thorough": 16}
@@ -163,6 +163,16 @@ def k_pairs(ctx, seqs, alphabet, mode, default_nb=False):
         if got != want or bad_self:
             ctx.violation(f"find_neighbor_pairs:{mode}:wrong", "does not list each unordered distance-1 pair of distinct sequences exactly once",
                           sorted(tuple(sorted(p)) for p in got.elements())[:20], sorted(tuple(sorted(p)) for p in want.elements())[:20])
+    # the caller's own set object, used twice (the second answer must be as exact as the first), then a frozenset and a tuple
+    sobj = set(seqs)
+    for step, cont in (("set-first", sobj), ("set-second", sobj), ("frozenset", frozenset(seqs)), ("tuple", tuple(seqs))):
+        ctx.count("pairs_container_steps")
+        o2 = ctx.call(prs.find_neighbor_pairs, cont, _nb(mode, alphabet))
+        if not o2.ok:
+            ctx.violation(f"find_neighbor_pairs:{step}:raised", f"raised for a {type(cont).__name__}", o2.describe(), None)
+        elif collections.Counter(frozenset(p) for p in o2.value) != want or any(p[0] == p[1] for p in o2.value):
+            ctx.violation(f"find_neighbor_pairs:{mode}:{step}:wrong", f"{type(cont).__name__} ({step}): does not list each unordered distance-1 pair of distinct sequences exactly once",
+                          sorted(tuple(sorted(p)) for p in o2.value)[:20], sorted(tuple(sorted(p)) for p in want.elements())[:20])
     # index form on unique sequences
     ulist = list(dict.fromkeys(seqs))
     wanti = collections.Counter((i, j) for i, a in enumerate(ulist) for j, b in enumerate(ulist) if i != j and d(a, b) == 1)
